@@ -24,6 +24,7 @@ import (
 
 	"github.com/fullstorydev/grpchan"
 	"github.com/fullstorydev/grpchan/internal"
+	"github.com/fullstorydev/grpchan/internal/verifhook"
 )
 
 // frame is the unit of communication with gRPC streams. Frames are used to send
@@ -251,29 +252,36 @@ func (c *Channel) Invoke(ctx context.Context, method string, req, resp interface
 			close(ch)
 		}()
 		ctx := grpc.NewContextWithServerTransportStream(makeServerContext(ctx), &sts)
+		verifhook.At("invoke.server.start")
 		v, err := md.Handler(handler, ctx, codec, c.unaryInterceptor)
 		if h := sts.GetHeaders(); len(h) > 0 {
+			verifhook.At("invoke.server.write.headers")
 			_ = writeMessage(ctx, nil, ch, frame{headers: h})
 		}
 		if err == nil {
 			if isNil(v) {
 				err = status.Errorf(codes.Internal, "handler returned neither error nor response message")
 			} else {
+				verifhook.At("invoke.server.write.data")
 				_ = writeMessage(ctx, nil, ch, frame{data: v})
 			}
 		}
 		if t := sts.GetTrailers(); len(t) > 0 {
+			verifhook.At("invoke.server.write.trailers")
 			_ = writeMessage(ctx, nil, ch, frame{trailers: t})
 		}
 		if err != nil {
+			verifhook.At("invoke.server.write.err")
 			_ = writeMessage(ctx, nil, ch, frame{err: err})
 		}
+		verifhook.At("invoke.server.close")
 	}()
 
 	gotResponse := false
 	for {
 		select {
 		case r, ok := <-ch:
+			verifhook.At("invoke.client.read")
 			if !ok {
 				// no more messages
 				if !gotResponse {
